@@ -74,6 +74,17 @@ type Op struct {
 	HintSub string
 	Prompt  []string
 	MaxAge  string
+	// authorize: NoMethod = the query carries code_challenge without code_challenge_method (only
+	// with Method "plain": RFC 7636 4.3 defaults to plain; same model input).
+	// RO: a signed Request Object in the `request` parameter ("" none | "ok" | a defect that makes
+	// op.ParseRequestObject refuse it) and the members it carries ("" / nil = member absent).
+	NoMethod bool
+	RO       string
+	ROURI    string
+	ROScopes []string
+	RONonce  string
+	ROChal   string
+	ROMethod string // "" absent | "plain" | "S256"
 	// login / callback
 	Req   int
 	Sub   string
@@ -128,8 +139,17 @@ func (o Op) Coq() string {
 		case "bad":
 			hint = emit.Some(emit.None)
 		}
+		ro := emit.None
+		if o.RO != "" {
+			cm := emit.None
+			if o.ROMethod != "" {
+				cm = emit.Some(emit.Bool(o.ROMethod == "S256"))
+			}
+			ro = emit.Some("{| ro_ok := " + emit.Bool(o.RO == "ok") + "; ro_uri := " + emit.Str(o.ROURI) + "; ro_scopes := " + emit.StrList(o.ROScopes) +
+				"; ro_nonce := " + emit.Str(o.RONonce) + "; ro_cc := " + emit.Str(o.ROChal) + "; ro_cm := " + cm + " |}")
+		}
 		t = emit.Ctor("Authorize", emit.Str(o.Client), emit.Str(o.URI), emit.StrList(o.Scopes), emit.Str(o.Nonce), ch,
-			"{| x_hint := "+hint+"; x_prompt := "+emit.StrList(o.Prompt)+" |}")
+			"{| x_hint := "+hint+"; x_prompt := "+emit.StrList(o.Prompt)+"; x_ro := "+ro+" |}")
 	case "login":
 		t = emit.Ctor("Login", emit.Nat(o.Req), emit.Str(o.Sub), emit.Nat(o.Stamp))
 	case "callback":
@@ -207,6 +227,74 @@ type Options struct {
 	DropRefresh                string // client that loses the refresh_token grant ("" = none)
 	DropCode                   string // client that loses the authorization_code grant
 	LiveGrants                 bool   // the storage hands out the live refresh grant (refstore ext_c07.go)
+	KeepRT                     bool   // the storage does not rotate refresh tokens (refstore ext_c07.go)
+	NoReqObj                   bool   // Config.RequestObjectSupported off
+}
+
+// RODefects: ways a Request Object fails op.ParseRequestObject.
+var RODefects = []string{"wrong-key", "wrong-aud", "wrong-iss", "other-client", "unknown-kid", "no-iss"}
+
+// RequestObject signs a Request Object (OIDC Core 6.1) for the authorization request o with the key
+// registered for its client (kid k1), or broken as o.RO says.
+func RequestObject(o Op) string {
+	iss, kid := o.Client, "k1"
+	key := opfix.ECKey("client-" + o.Client)
+	claims := map[string]any{"aud": []string{opfix.Issuer}}
+	switch o.RO {
+	case "wrong-key":
+		key = opfix.ECKey("rogue")
+	case "wrong-aud":
+		claims["aud"] = []string{"https://other.example.com"}
+	case "wrong-iss":
+		iss = "somebody-else"
+	case "other-client": // a perfectly signed object of ANOTHER client
+		iss = "web"
+		if o.Client == "web" {
+			iss = "pkjwt"
+		}
+		key = opfix.ECKey("client-" + iss)
+	case "unknown-kid":
+		kid = "k9"
+	}
+	claims["iss"], claims["client_id"] = iss, iss
+	if o.RO == "wrong-iss" {
+		claims["client_id"] = o.Client
+	}
+	if o.RO == "no-iss" {
+		delete(claims, "iss")
+	}
+	if len(o.Chal)%2 == 0 { // optional member, must agree with the query when present
+		claims["response_type"] = "code"
+	}
+	if o.ROURI != "" {
+		claims["redirect_uri"] = o.ROURI
+	}
+	if len(o.ROScopes) > 0 {
+		claims["scope"] = strings.Join(o.ROScopes, " ")
+	}
+	if o.RONonce != "" {
+		claims["nonce"] = o.RONonce
+	}
+	if o.ROChal != "" {
+		claims["code_challenge"] = o.ROChal
+	}
+	if o.ROMethod != "" {
+		claims["code_challenge_method"] = o.ROMethod
+	}
+	sg, err := jose.NewSigner(jose.SigningKey{Algorithm: jose.ES256, Key: &jose.JSONWebKey{Key: key, KeyID: kid}}, nil)
+	if err != nil {
+		panic(err)
+	}
+	b, _ := json.Marshal(claims)
+	sig, err := sg.Sign(b)
+	if err != nil {
+		panic(err)
+	}
+	out, err := sig.CompactSerialize()
+	if err != nil {
+		panic(err)
+	}
+	return out
 }
 
 // IDTokenHint mints an ID token of the provider (signed with its key) for sub / aud.
@@ -298,8 +386,16 @@ func NewWorld(o Options) (*World, error) {
 	if c, ok := st.Clients[o.DropCode]; ok {
 		c.Grants = without(c.Grants, oidc.GrantTypeCode)
 	}
+	// every client can sign Request Objects (JWTProfileKeyStorage: key k1 of the client); as for
+	// "web", such a key does not make client assertions of a non-private_key_jwt client acceptable
+	for _, id := range []string{"web2", "native", "spa"} {
+		k := opfix.ECKey("client-" + id)
+		st.Clients[id].Keys = map[string]*jose.JSONWebKey{"k1": {Key: &k.PublicKey, KeyID: "k1", Algorithm: "ES256", Use: "sig"}}
+	}
+	st.Users["team:carol"] = &refstore.User{Subject: "team:carol", Name: "Carol C", Email: "carol@example.com"}
 	st.SetLiveRefreshGrants(o.LiveGrants)
-	f, err := opfix.New(st, opfix.Options{NoPost: o.NoPost, NoPKJWT: o.NoPKJWT, NoRefresh: o.NoRefresh})
+	st.SetKeepRefreshTokens(o.KeepRT)
+	f, err := opfix.New(st, opfix.Options{NoPost: o.NoPost, NoPKJWT: o.NoPKJWT, NoRefresh: o.NoRefresh, NoReqObj: o.NoReqObj})
 	if err != nil {
 		return nil, err
 	}
@@ -336,7 +432,8 @@ func (w *World) CfgCoq() string {
 		cs[i] = c.Coq()
 	}
 	return "{| f_post := " + emit.Bool(!w.Opts.NoPost) + "; f_pkjwt := " + emit.Bool(!w.Opts.NoPKJWT) +
-		"; f_refresh := " + emit.Bool(!w.Opts.NoRefresh) + "; clients := " + emit.List(cs) + " |}"
+		"; f_refresh := " + emit.Bool(!w.Opts.NoRefresh) + "; f_reqobj := " + emit.Bool(!w.Opts.NoReqObj) +
+		"; f_keep := " + emit.Bool(w.Opts.KeepRT) + "; clients := " + emit.List(cs) + " |}"
 }
 
 // HashTableCoq renders verifier -> S256(verifier) for every verifier string that occurred.
@@ -580,7 +677,12 @@ func (w *World) Exec(o Op) Out {
 		}
 		if o.Method != "" {
 			q.Set("code_challenge", o.Chal)
-			q.Set("code_challenge_method", o.Method)
+			if !(o.NoMethod && o.Method == "plain") {
+				q.Set("code_challenge_method", o.Method)
+			}
+		}
+		if o.RO != "" {
+			q.Set("request", RequestObject(o))
 		}
 		if o.Hint != "" {
 			q.Set("id_token_hint", IDTokenHint(o.HintSub, o.Client, o.Hint))
